@@ -56,3 +56,8 @@ def helper_noinline(v, w='hw'):
 def helper_unconfig(v):
   import fiddle as fdl  # pylint: disable=g-import-not-at-top
   return fdl.Config(nodes.Base, x=v)
+
+
+@auto_config.auto_unconfig
+def helper_unconfig_raises(v):
+  raise ValueError('the configuration-constructing body failed')
